@@ -54,7 +54,9 @@ fn chain_str(i: u8) -> String {
         0 => "".into(),
         1 => "ethereum".into(),
         2 => "x".repeat(300),
-        _ => "chaîne-目的地-🚀".into(),
+        3 => "chaîne-目的地-🚀".into(),
+        // mixed case with surrounding whitespace: must be announced byte for byte
+        _ => " Avalanche-C ".into(),
     }
 }
 fn addr_str(i: u8) -> String {
@@ -159,7 +161,7 @@ impl Scenario for C13 {
             Who::UnauthorisedNaming(2),
         ];
         for who in whos {
-            for chain in 0..4u8 {
+            for chain in 0..5u8 {
                 for addr in 0..3u8 {
                     if self.thorough && chain == 1 && addr == 0 {
                         // every payload length around all Keccak-256 block boundaries up to 3 blocks, plus large ones
@@ -275,7 +277,7 @@ fn main() {
     main_for(|tier| {
         let mut o = Opts::new(tier, 1);
         o.level = "exploration";
-        o.rule = "exhaustive grid from 5 gateway states (fresh, with approvals, after a rotation, after three rotations with retention 1, inside the rotation-delay window after a bypass rotation): sender/authorisation in {principal signing; another principal signing; nobody; principal signing a different call; both signing; contract naming itself as caller; contract naming another address; account-type address authorised / unauthorised; unauthorised direct calls naming the gateway itself, another contract, the gateway's owner} x destination chain {empty, ASCII, 300 chars, multi-byte} x destination address {hex, empty, non-ASCII} x payload length {0,1,31,32,33,135,136,137,272,4096,40960} (Keccak rate boundaries; thorough: every length 0..=410 and 16 KiB / 16 KiB+1 / 64 KiB for the ASCII destination); one case is non-trivial and distinct when its (base state, sender mode, strings, payload) tuple differs".into();
+        o.rule = "exhaustive grid from 5 gateway states (fresh, with approvals, after a rotation, after three rotations with retention 1, inside the rotation-delay window after a bypass rotation): sender/authorisation in {principal signing; another principal signing; nobody; principal signing a different call; both signing; contract naming itself as caller; contract naming another address; account-type address authorised / unauthorised; unauthorised direct calls naming the gateway itself, another contract, the gateway's owner} x destination chain {empty, lower-case ASCII, 300 chars, multi-byte, mixed case with surrounding blanks} x destination address {hex, empty, non-ASCII} x payload length {0,1,31,32,33,135,136,137,272,4096,40960} (Keccak rate boundaries; thorough: every length 0..=410 and 16 KiB / 16 KiB+1 / 64 KiB for the ASCII destination); one case is non-trivial and distinct when its (base state, sender mode, strings, payload) tuple differs".into();
         (C13 { thorough: tier == "thorough" }, o)
     });
 }
